@@ -48,11 +48,15 @@ func clsTok(s string) string {
 }
 
 func judgeC16B(c *vlib.Ctx, cs *Case, evs []Rec) (vs []verdict, ended bool, inconclusive string) {
-	var ans, atAns, fin *Rec
-	var dst, evt string
-	for _, s := range cs.Steps {
+	var answers []*Rec
+	var fin *Rec
+	firstIdx, nJudged := -1, 0
+	for i, s := range cs.Steps {
 		if s.Judged {
-			dst, evt = s.Dst, s.Evt
+			nJudged++
+			if firstIdx < 0 {
+				firstIdx = i
+			}
 		}
 	}
 	for i := range evs {
@@ -60,10 +64,8 @@ func judgeC16B(c *vlib.Ctx, cs *Case, evs []Rec) (vs []verdict, ended bool, inco
 		switch {
 		case e.Ev == "end":
 			ended = true
-		case e.Ev == "op-end" && strings.HasPrefix(e.Name, "judged:"):
-			ans = e
 		case e.Ev == "device-at-answer":
-			atAns = e
+			answers = append(answers, e)
 		case e.Ev == "device-final":
 			fin = e
 		case e.Ev == "hang":
@@ -71,46 +73,55 @@ func judgeC16B(c *vlib.Ctx, cs *Case, evs []Rec) (vs []verdict, ended bool, inco
 				fmt.Sprintf("%s did not return within %d ms; stuck in %s", e.Name, e.WaitMs, e.Frame)})
 		}
 	}
-	if ans == nil || atAns == nil || fin == nil {
-		return vs, ended, "no answer / device view recorded for the judged transition"
+	if len(answers) < nJudged || fin == nil {
+		return vs, ended, fmt.Sprintf("%d of %d judged requests answered / no final device view", len(answers), nJudged)
 	}
 	if fin.Msg == "not-quiescent" {
 		return vs, ended, "device did not become quiescent within the bound"
 	}
-	slowDone := strings.Contains(fin.Trace, cs.Child.SlowOn+"->")
-	if !slowDone {
+	if !strings.Contains(fin.Trace, cs.Child.SlowOn+"->") {
 		return vs, ended, "the slow step was never performed: " + fin.Trace
 	}
-	moving := atAns.InFlight > 0 || fin.Steps > atAns.Steps
-	c.Count("answers_compared", 1)
-	if moving {
-		c.Count("answers_while_device_moving", 1)
-	} else {
-		c.Count("answers_with_device_at_rest", 1)
-	}
-	if ans.Err == "" {
-		c.Count("answers_success", 1)
-	} else {
-		c.Count("answers_error", 1)
-	}
 	c.Count("device_steps_observed", int64(fin.Steps))
-	pre := fmt.Sprintf("REPORT/%s/%s/slow-%s->", cs.Kind, evt, clsTok(cs.Child.SlowOn))
 	wantFinal := imageOf(cs.Kind, fin.Device)
-	detail := func(what string) string {
-		return fmt.Sprintf("%s: %s %s with %s taking %d ms: the executor answered state=%q error=%q when the device was in %s with %d step(s) in flight; "+
-			"the device went on to %s (image %q). Device steps: %s", what, cs.Kind, evt, cs.Child.SlowOn, cs.Child.SlowMs, ans.State, ans.Err,
-			atAns.Device, atAns.InFlight, fin.Device, wantFinal, fin.Trace)
-	}
-	switch {
-	case !moving && ans.State != imageOf(cs.Kind, atAns.Device):
-		vs = append(vs, verdict{"REPORT", pre + "reported-" + clsTok(ans.State) + "-device-" + clsTok(atAns.Device),
-			detail("reported state is not the image of the state the device is in")})
-	case moving && ans.State != "" && ans.State != wantFinal:
-		vs = append(vs, verdict{"REPORT", pre + "reported-" + clsTok(ans.State) + "-device-" + clsTok(fin.Device),
-			detail("answer given while the device was still moving names a state the device does not end up in, and nothing was rolled back")})
-	case ans.Err == "" && wantFinal != dst:
-		vs = append(vs, verdict{"REPORT", pre + "success-reported-device-" + clsTok(fin.Device),
-			detail("success reported although the device did not reach the destination")})
+	firstEvt := cs.Steps[firstIdx].Evt
+	for _, ans := range answers {
+		st := cs.Steps[ans.StepIdx]
+		evt := st.Evt
+		overlapping := ans.StepIdx != firstIdx
+		if overlapping {
+			evt += "-during-" + firstEvt
+			c.Count("answers_to_overlapping_requests", 1)
+		}
+		moving := ans.InFlight > 0 || fin.Steps > ans.Steps
+		c.Count("answers_compared", 1)
+		if moving {
+			c.Count("answers_while_device_moving", 1)
+		} else {
+			c.Count("answers_with_device_at_rest", 1)
+		}
+		if ans.Err == "" {
+			c.Count("answers_success", 1)
+		} else {
+			c.Count("answers_error", 1)
+		}
+		pre := fmt.Sprintf("REPORT/%s/%s/slow-%s->", cs.Kind, evt, clsTok(cs.Child.SlowOn))
+		detail := func(what string) string {
+			return fmt.Sprintf("%s: %s %s (%s->%s) with %s taking %d ms: the executor answered state=%q error=%q when the device was in %s with %d step(s) in flight; "+
+				"the device went on to %s (image %q). Device steps: %s", what, cs.Kind, evt, st.Src, st.Dst, cs.Child.SlowOn, cs.Child.SlowMs, ans.State, ans.Err,
+				ans.Device, ans.InFlight, fin.Device, wantFinal, fin.Trace)
+		}
+		switch {
+		case !moving && ans.State != imageOf(cs.Kind, ans.Device):
+			vs = append(vs, verdict{"REPORT", pre + "reported-" + clsTok(ans.State) + "-device-" + clsTok(ans.Device),
+				detail("reported state is not the image of the state the device is in")})
+		case moving && ans.State != "" && ans.State != wantFinal:
+			vs = append(vs, verdict{"REPORT", pre + "reported-" + clsTok(ans.State) + "-device-" + clsTok(fin.Device),
+				detail("answer given while the device was still moving names a state the device does not end up in, and nothing was rolled back")})
+		case ans.Err == "" && wantFinal != st.Dst:
+			vs = append(vs, verdict{"REPORT", pre + "success-reported-device-" + clsTok(fin.Device),
+				detail("success reported although the device did not reach the destination")})
+		}
 	}
 	return vs, ended, ""
 }
